@@ -6,8 +6,8 @@
    0d1555c; the one recorded finding (empty path parameters, key empty-path-params-dropped) keeps its
    guarded theorem and refuting witness. *)
 From Coq Require Import String.
-From Verif Require Import Lib.Base Lib.PyStr Lib.Urlenc Lib.Html Model.Uri Model.Delivery
-  Proofs.Html_proofs Proofs.Uri_proofs Proofs.Delivery_proofs.
+From Verif Require Import Lib.Base Lib.PyStr Lib.Urlenc Lib.Html Model.Uri Model.Delivery Model.Flight
+  Proofs.Html_proofs Proofs.Uri_proofs Proofs.Delivery_proofs Proofs.Flight_proofs.
 Open Scope N_scope.
 
 (* ================================================================== (a) the matcher *)
@@ -254,6 +254,77 @@ Theorem C06_logout_state : forall regs native oidc uri s b,
 Proof. exact logout_state_accepted. Qed.
 Print Assumptions C06_logout_state.
 
+(* ================================================================== (d) several requests in flight *)
+
+(* Model/Flight.v: a host application interleaves the calls (parse_request; process_request, or after a
+   login page setup_auth / create_session and authz_part2; do_response) that belong to different
+   requests at ONE endpoint object in any order.  An endpoint is a state-passing machine; answer1 r is
+   what request r gets when it is alone. *)
+
+(* Whatever the schedule (any list of calls, any request numbers): if what an endpoint hands out does
+   not depend on the state it carries between calls, every answer it gives in an interleaved run is the
+   answer the request it belongs to gets alone at a fresh endpoint. *)
+Theorem C06_flight_independent : forall (S : Type) (E : endpoint S),
+  (forall s s' r, snd (e_parse E s r) = snd (e_parse E s' r)) ->
+  (forall s s' p, snd (e_part2 E s p) = snd (e_part2 E s' p)) ->
+  forall reqs sched i a, In (i, a) (run_flight E reqs sched) ->
+  exists r, nth_error reqs i = Some r /\ a = own_answer E r.
+Proof. exact flight_independent. Qed.
+Print Assumptions C06_flight_independent.
+
+(* the model of the authorization endpoint keeps nothing between calls ... *)
+Theorem C06_endpoint_keeps_nothing : forall (s s' : unit) r,
+  e_parse ep_model s r = e_parse ep_model s' r /\ e_auth ep_model s r = e_auth ep_model s' r
+  /\ e_part2 ep_model s r = e_part2 ep_model s' r.
+Proof. exact model_keeps_nothing. Qed.
+Print Assumptions C06_endpoint_keeps_nothing.
+
+(* ... so in every interleaved run each answer is a function of the request being answered alone *)
+Theorem C06_flight_answer_own : forall reqs sched i a,
+  In (i, a) (run_flight ep_model reqs sched) -> exists r, nth_error reqs i = Some r /\ a = answer1 r.
+Proof. exact flight_model. Qed.
+Print Assumptions C06_flight_answer_own.
+
+(* and each request does get that answer, whatever happens for other requests in between — directly ... *)
+Theorem C06_flight_answers_process : forall reqs i r a b c d,
+  nth_error reqs i = Some r -> about i b = false -> about i c = false ->
+  In (i, answer1 r)
+     (run_flight ep_model reqs (a ++ EvParse i :: b ++ EvProcess i :: c ++ EvRespond i :: d)).
+Proof. exact flight_answers_process. Qed.
+Print Assumptions C06_flight_answers_process.
+(* ... and when the flow is continued after a login page *)
+Theorem C06_flight_answers_login : forall reqs i r a b c c' d,
+  nth_error reqs i = Some r -> about i b = false -> about i c = false -> about i c' = false ->
+  In (i, answer1 r)
+     (run_flight ep_model reqs (a ++ EvParse i :: b ++ EvAuth i :: c ++ EvPart2 i :: c' ++ EvRespond i :: d)).
+Proof. exact flight_answers_login. Qed.
+Print Assumptions C06_flight_answers_login.
+
+(* where that answer goes: own_target r v says v is the redirect URI of r itself, accepted by verify_uri
+   against the registration of r's own client (without redirect_uri: the single registered one) *)
+Theorem C06_flight_redirect_own : forall reqs sched i url,
+  In (i, ARedirect url) (run_flight ep_model reqs sched) ->
+  exists r v l, nth_error reqs i = Some r /\
+    (decide (q_regs r) (q_native r) (q_oidc r) (q_uri r) = Redirectable v /\
+     match q_uri r with
+     | Some u => v = u /\ verify_uri (q_regs r) (q_native r) (q_oidc r) u = Ok tt
+     | None => exists b q, q_regs r = [RPair b q] /\ join_query b q = Ok v
+     end) /\
+    enc_pairs (q_args r) = Ok l /\ url = place v (urlencode_b l) (q_frag r).
+Proof. exact flight_redirect_own. Qed.
+Print Assumptions C06_flight_redirect_own.
+Theorem C06_flight_page_own : forall reqs sched i page,
+  In (i, APage page) (run_flight ep_model reqs sched) ->
+  exists r v l, nth_error reqs i = Some r /\
+    (decide (q_regs r) (q_native r) (q_oidc r) (q_uri r) = Redirectable v /\
+     match q_uri r with
+     | Some u => v = u /\ verify_uri (q_regs r) (q_native r) (q_oidc r) u = Ok tt
+     | None => exists b q, q_regs r = [RPair b q] /\ join_query b q = Ok v
+     end) /\
+    form_pairs (q_args r) = Ok l /\ read_page page = Some (v, l).
+Proof. exact flight_page_own. Qed.
+Print Assumptions C06_flight_page_own.
+
 (* ================================================================== non-vacuity *)
 Definition lo4 : pystr := PS "http://127.0.0.1:8000/cb"%string.
 Example C06_nonvacuous_match :
@@ -292,3 +363,27 @@ Example C06_nonvacuous_delivery :
      = Some (cb, [(PS "state"%string, PS """><script>alert(1)</script>"%string)])
   /\ logout_target (PS "https://c.example/lo?x=1"%string) (Some (PS "st"%string)) = Ok (PS "https://c.example/lo?x=1&state=st"%string).
 Proof. repeat split; vm_compute; reflexivity. Qed.
+
+(* two clients, two requests in flight; every order of the calls gives each request its own answer *)
+Definition cb2 : pystr := PS "https://rp-b.example.net/callback"%string.
+Definition rq_a : areq := mk_areq [RPair cb None] false true (Some cb) false false [(PS "state"%string, FStr (PS "sa"%string))].
+Definition rq_b : areq := mk_areq [RPair cb2 (Some [(PS "rp"%string, [PS "b"%string])])] false true
+                            (Some (cb2 ++ PS "?rp=b"%string)) true false [(PS "state"%string, FStr (PS "sb"%string))].
+Example C06_nonvacuous_flight :
+  answer1 rq_a = ARedirect (cb ++ PS "?state=sa"%string)
+  /\ answer1 rq_b = APage (form_page (cb2 ++ PS "?rp=b"%string) [(PS "state"%string, PS "sb"%string)])
+  /\ run_flight ep_model [rq_a; rq_b] [EvParse 0; EvParse 1; EvProcess 0; EvProcess 1; EvRespond 0; EvRespond 1]%nat
+     = [(0%nat, answer1 rq_a); (1%nat, answer1 rq_b)]
+  /\ run_flight ep_model [rq_a; rq_b] [EvParse 1; EvParse 0; EvProcess 1; EvAuth 0; EvRespond 1; EvPart2 0; EvRespond 0]%nat
+     = [(1%nat, answer1 rq_b); (0%nat, answer1 rq_a)]
+  /\ run_flight ep_model [rq_a; set_uri rq_a (PS "https://evil.example.org/cb"%string)] [EvParse 0; EvParse 1; EvProcess 0; EvRespond 0]%nat
+     = [(1%nat, ADirect); (0%nat, answer1 rq_a)].
+Proof. repeat split; vm_compute; reflexivity. Qed.
+(* the independence statement has content: an endpoint object that remembers the URI it verified last
+   and uses it for the next response sends the answer of request 0 to the target of request 1 *)
+Example C06_flight_register_refuted :
+  run_flight ep_register [rq_a; rq_b] [EvParse 0; EvParse 1; EvProcess 0; EvRespond 0]%nat
+  = [(0%nat, ARedirect (cb2 ++ PS "?rp=b&state=sa"%string))]
+  /\ own_answer ep_register rq_a = answer1 rq_a
+  /\ ARedirect (cb2 ++ PS "?rp=b&state=sa"%string) <> answer1 rq_a.
+Proof. repeat split; try (vm_compute; reflexivity). vm_compute. discriminate. Qed.
